@@ -1,6 +1,7 @@
 import MorfuseModel.Sched.Machine
 import MorfuseModel.Sched.MachineHostProps
 import MorfuseModel.Sched.MachineInstHost
+import MorfuseModel.Sched.MachineInstReset
 /-!
 # C13 — nothing outlives its script: idle means empty, reset means clean
 
@@ -322,5 +323,54 @@ example : (runOps {} demoQuiesce).insts = [(1, [101, 100])] ∧ idleFlag (runOps
 /-- two instances (the second from `waitthread`), three suspended threads -/
 example : (runOps {} [.script [[.waitthread 1, .mark 1], [.thread 2, .wait 5], [.wait 9]] [0, 0, 0], .call 0 []]).insts =
     [(2, [102, 101]), (1, [100])] := by decide +kernel
+
+/-- **`Reset()` is clean, machine level (partial).**  After `director.Reset()` in any reachable state (unless
+    out of fuel): no script instance is listed, no thread record has a VM, the timer and both listener
+    tables are empty, no program is compiled — and the machine invariant holds again.
+    *Missing for "bookkeeping equal to the initial state's"*: that no record at all is left (`threads = []`:
+    needs "between host operations every VM is idle", so that each destructor also frees the record) and
+    that the event queue is empty (`cancelEvents` in every destructor; events are not part of the
+    invariant).  Both are compared with the engine (pool counts, `ev=` after every command). -/
+theorem C13_machine_reset_clean_partial {s : State} (h : Reachable s) :
+    (hostReset s).outOfFuel = true ∨
+      ((hostReset s).insts = [] ∧ (∀ t th, (hostReset s).th? t = some th → th.hasVM = false) ∧
+       (hostReset s).timer.elems = [] ∧ (hostReset s).notify = [] ∧ (hostReset s).waitFor = [] ∧
+       (hostReset s).prog = [] ∧ HInv2 (hostReset s)) := by
+  have hr : Reachable (HostOp.apply s .resetDirector) := .step .resetDirector h trivial
+  have h2 : Ok (hostReset s) (HInv2 (hostReset s)) := reachable_hinv2 hr
+  rcases reachable_hinv2 h with ho | hi
+  · exact Or.inl ((hostReset_hr s).oof ho)
+  · rcases killAllInsts_clean hi with ho | ⟨p1, p2, p3, p4, p5⟩
+    · exact Or.inl ho
+    · rcases h2 with ho | q2
+      · exact Or.inl ho
+      · exact Or.inr ⟨p1, p2, p3, p4, p5, rfl, q2⟩
+
+/-- **Recompiling destroys every instance of the old program, machine level.**  `GetProgramScript(…,
+    recompile)` while a program is loaded (the machine has one program per context): afterwards (unless out
+    of fuel) no instance of the old version is listed and no thread of it has a VM; the new program is
+    installed and the invariant holds. -/
+theorem C13_machine_recompile_kills_old_instances {s : State} (h : Reachable s) (p : List (List Instr))
+    (ps : List Nat) (hp : ProgOK p) (hold : s.prog.isEmpty = false) :
+    (hostScript s p ps).outOfFuel = true ∨
+      ((hostScript s p ps).insts = [] ∧ (∀ t th, (hostScript s p ps).th? t = some th → th.hasVM = false) ∧
+       (hostScript s p ps).timer.elems = [] ∧ (hostScript s p ps).prog = p ∧ HInv2 (hostScript s p ps)) := by
+  have hr : Reachable (HostOp.apply s (.script p ps)) := .step (.script p ps) h hp
+  have h2 : Ok (hostScript s p ps) (HInv2 (hostScript s p ps)) := reachable_hinv2 hr
+  have he : hostScript s p ps = { killAllInsts s with prog := p, progParams := ps } := by
+    unfold hostScript; simp [hold]
+  rcases reachable_hinv2 h with ho | hi
+  · exact Or.inl ((hostScript_hr s p ps).oof ho)
+  · rcases killAllInsts_clean hi with ho | ⟨p1, p2, p3, _, _⟩
+    · left; rw [he]; exact ho
+    · rcases h2 with ho | q2
+      · exact Or.inl ho
+      · right
+        rw [he] at q2 ⊢
+        exact ⟨p1, p2, p3, rfl, q2⟩
+
+/-- `Reset()` in the suspended demo state -/
+example : (hostReset (runOps {} demoQuiesce)).outOfFuel = false ∧ (hostReset (runOps {} demoQuiesce)).insts = [] := by
+  decide +kernel
 
 end Morfuse.Sched
